@@ -28,6 +28,7 @@ func (in *Interp) get(o *Obj, name string) Value { return in.getWithThis(o, name
 func (in *Interp) getWithThis(o *Obj, name string, this Value) Value {
 	if o.ParamMap != nil {
 		if bn, ok := o.ParamMap[name]; ok {
+			in.flag("arguments-mapped-read")
 			return o.ArgEnv.vars[bn].value
 		}
 	}
@@ -160,6 +161,7 @@ func (in *Interp) defineOwn(o *Obj, name string, desc *Prop, fields map[string]b
 		cur.Value = desc.Value
 		if o.ParamMap != nil {
 			if bn, ok := o.ParamMap[name]; ok {
+				in.flag("arguments-mapped-write")
 				o.ArgEnv.vars[bn].value = desc.Value
 			}
 		}
